@@ -10,7 +10,7 @@ import gen
 SPELL = {"prog": gen.KW["PROGRAM"], "in": gen.KW["IN"], "out": gen.KW["OUT"], "do": gen.KW["DO"], "end": gen.KW["END"],
          "loop": gen.KW["LOOP"], "while": gen.KW["WHILE"], "goto": gen.KW["GOTO"], "if": gen.KW["IF"], "then": gen.KW["THEN"],
          "stop": gen.KW["STOP"], "run": gen.KW["RUN"], "with": gen.KW["WITH"], "neq0": ["!= 0"], "eq": ["="], "comma": [","],
-         "semi": [";"], "colon": [":"], "assign": [":="], "plus": ["+"], "minus": ["-"], "junk": ["*", "(", "%"]}
+         "semi": [";"], "colon": [":"], "assign": [":="], "plus": ["+"], "minus": ["-"], "junk": ["*", "(", "%", "\x00"]}
 BIG = ["2147483647", "99999999999", "2147483648", "18446744073709551616"]
 KIND_OF_WORD = {}
 for k, sp in SPELL.items():
